@@ -251,4 +251,31 @@ DelegateExpected(sh) ==
    body |-> <<"5", "&s">>,
    reqcalls |-> [i \in 1..(sh.direct + sh.nreq) |-> IF i <= sh.direct THEN 1 ELSE 5 + (i - sh.direct - 1)],
    verdict |-> "silent"]
+
+(***************************************************************************)
+(* C20: traits mirrored under unimock::mock (core / std part): which       *)
+(* methods are required (served by their own mock entry point) and which   *)
+(* are provided (an un-mocked call runs the upstream default body over the *)
+(* mocked required methods).  From the upstream trait definitions.         *)
+(***************************************************************************)
+Mirrors ==
+  { <<"Display", "fmt", "req">>, <<"Debug", "fmt", "req">>,
+    <<"Hasher", "finish", "req">>, <<"Hasher", "write", "req">> }
+  \cup { <<"Hasher", m, "prov">> : m \in {"write_u8", "write_u16", "write_u32", "write_u64", "write_u128", "write_usize",
+                                             "write_i8", "write_i16", "write_i32", "write_i64", "write_i128", "write_isize"} }
+  \cup { <<"Error", "source", "prov">> }
+  \cup { <<"BufRead", "fill_buf", "req">>, <<"BufRead", "consume", "req">>, <<"BufRead", "read_until", "prov">>, <<"BufRead", "read_line", "prov">> }
+  \cup { <<"Read", "read", "req">>, <<"Read", "read_vectored", "prov">>, <<"Read", "read_to_end", "prov">>, <<"Read", "read_to_string", "prov">>, <<"Read", "read_exact", "prov">> }
+  \cup { <<"Seek", "seek", "req">>, <<"Seek", "rewind", "prov">>, <<"Seek", "stream_position", "prov">> }
+  \cup { <<"Write", "write", "req">>, <<"Write", "flush", "req">>, <<"Write", "write_vectored", "prov">>, <<"Write", "write_all", "prov">> }
+  \cup { <<"DelayNs", "delay_ns", "req">>, <<"DelayNs", "delay_us", "prov">>, <<"DelayNs", "delay_ms", "prov">> }
+\* the required methods a provided method's upstream body is built on
+Basis(t, m) ==
+  CASE t = "Hasher"  -> {"write"}
+    [] t = "BufRead" -> {"fill_buf", "consume"}
+    [] t = "Read"    -> {"read"}
+    [] t = "Seek"    -> {"seek"}
+    [] t = "Write"   -> {"write"}
+    [] t = "DelayNs" -> {"delay_ns"}
+    [] OTHER         -> {}
 =============================================================================
